@@ -228,7 +228,7 @@ Proof.
 Qed.
 
 Theorem char_literal_agree : forall s t v, char_literal s = Some (t, v) ->
-  lit_value s = Ok v \/ lit_value s = Err CDefError.
+  lit_value s = Ok v \/ (lit_value s = Err CDefError /\ (5 <= length s)%nat).
 Proof.
   intros s t v H. unfold char_literal in H. destruct s as [|q body]; [discriminate|].
   destruct (rev body) as [|q2 rb] eqn:R; [discriminate|].
@@ -256,46 +256,101 @@ Proof.
     destruct (assoc c2 c_escapes) as [v1|] eqn:A.
     + inversion V; subst. rewrite (table_le_assoc _ _ escapes_covered _ _ A). auto.
     + apply octal_single in V. rewrite (table_le_assoc _ _ octal_singles_covered _ _ V). auto.
-  - right. destruct rest; reflexivity.
+  - right. split; [destruct rest; reflexivity|]. simpl. rewrite app_length. simpl. lia.
+Qed.
+
+Theorem literal_agree_strong : forall s t v, c_literal s = Some (t, v) ->
+  lit_value s = Ok v \/ (lit_value s = Err CDefError /\ (5 <= length s)%nat /\ hd 0%N s = 39%N).
+Proof.
+  intros s t v H. unfold c_literal in H. destruct s as [|q r]; [discriminate|].
+  destruct (N.eqb q 39) eqn:Q.
+  - apply N.eqb_eq in Q. subst q. destruct (char_literal_agree _ _ _ H) as [A|[A B]]; auto.
+  - left. eapply number_literal_agree; eauto.
 Qed.
 
 Theorem literal_agree : forall s t v, c_literal s = Some (t, v) ->
   lit_value s = Ok v \/ lit_value s = Err CDefError.
+Proof. intros s t v H. destruct (literal_agree_strong _ _ _ H) as [A|[A _]]; auto. Qed.
+
+(* the literals cffi supports: every number, and character constants of at most one (escaped) character *)
+Definition supported_literal (s : text) : Prop := hd 0%N s = 39%N -> (length s <= 4)%nat.
+
+Theorem literal_accepted : forall s t v, c_literal s = Some (t, v) -> supported_literal s -> lit_value s = Ok v.
 Proof.
-  intros s t v H. unfold c_literal in H. destruct s as [|q r]; [discriminate|].
-  destruct (N.eqb q 39).
-  - eapply char_literal_agree; eauto.
-  - left. eapply number_literal_agree; eauto.
+  intros s t v H S. destruct (literal_agree_strong _ _ _ H) as [A|(A & L & Q)]; [assumption|].
+  specialize (S Q). lia.
 Qed.
 
-(* ------------------------------------------------------------------ the agreement theorem *)
+(* ------------------------------------------------------------------ the agreement theorems *)
 
-Theorem agree_exact : forall e t v, c_eval e = Some (t, v, true) ->
-  py_eval [] e = Ok v \/ py_eval [] e = Err CDefError.
+Fixpoint supported (e : expr) : Prop :=
+  match e with
+  | Const s => supported_literal s
+  | Unary _ e1 => supported e1
+  | Binary _ l r => supported l /\ supported r
+  | Id _ | Other => True
+  end.
+
+(* the common part: what the operators do once the operands agree *)
+Lemma binary_exact : forall op ta a fa tb b fb t v,
+  match arith_of op with
+  | Some o => c_arith o ta a tb b (fa && fb)
+  | None => if String.eqb op "<<" then c_shift true ta a b (fa && fb)
+            else if String.eqb op ">>" then c_shift false ta a b (fa && fb) else None
+  end = Some (t, v, true) ->
+  fa = true /\ fb = true /\ binop op a b = Some (Ok v).
 Proof.
-  induction e as [s|n|op e1 IH|op l IHl r IHr|]; intros t v H; simpl in H; try discriminate.
+  intros op ta a fa tb b fb t v H.
+  assert (G : (fa && fb = true) /\ binop op a b = Some (Ok v)).
+  { destruct (arith_of op) as [o|] eqn:A.
+    - apply c_arith_exact in H. destruct H as (F & -> & Hb). split; [assumption|]. now apply binop_arith.
+    - destruct (String.eqb_spec op "<<") as [->|_].
+      + apply c_shift_exact in H. destruct H as (F & Hb & ->). split; [assumption|]. apply binop_shift; lia.
+      + destruct (String.eqb_spec op ">>") as [->|_]; [|discriminate].
+        apply c_shift_exact in H. destruct H as (F & Hb & ->). split; [assumption|]. apply binop_shift; lia. }
+  destruct G as [F B]. apply andb_true_iff in F. tauto.
+Qed.
+
+Theorem agree_exact : forall cenv env e t v, env_agree cenv env -> c_eval cenv e = Some (t, v, true) ->
+  py_eval env e = Ok v \/ py_eval env e = Err CDefError.
+Proof.
+  intros cenv env e. induction e as [s|n|op e1 IH|op l IHl r IHr|]; intros t v EA H; simpl in H; try discriminate.
   - destruct (c_literal s) as [[t0 v0]|] eqn:L; [|discriminate]. inversion H; subst.
     simpl. eapply literal_agree; eauto.
-  - destruct (c_eval e1) as [[[t1 v1] f1]|] eqn:E1; [|discriminate].
+  - destruct (lookup n cenv) as [[t0 v0]|] eqn:L; [|discriminate]. inversion H; subst.
+    simpl. rewrite (EA _ _ _ L). auto.
+  - destruct (c_eval cenv e1) as [[[t1 v1] f1]|] eqn:E1; [|discriminate].
     destruct (String.eqb_spec op "+") as [->|_].
-    + inversion H; subst. simpl. destruct (IH _ _ eq_refl) as [-> | ->]; auto.
+    + inversion H; subst. simpl. destruct (IH _ _ EA eq_refl) as [-> | ->]; auto.
     + destruct (String.eqb_spec op "-") as [->|_]; [|discriminate].
       apply result_exact in H. destruct H as [-> ->].
-      simpl. destruct (IH _ _ eq_refl) as [-> | ->]; auto.
-  - destruct (c_eval l) as [[[ta a] fa]|] eqn:El; [|discriminate].
-    destruct (c_eval r) as [[[tb b] fb]|] eqn:Er; [|discriminate].
-    assert (G : (fa && fb = true) /\ exists x, binop op a b = Some (Ok v)  /\ x = tt).
-    { destruct (arith_of op) as [o|] eqn:A.
-      - apply c_arith_exact in H. destruct H as (F & -> & Hb). split; [assumption|].
-        exists tt. split; [now apply binop_arith|reflexivity].
-      - destruct (String.eqb_spec op "<<") as [->|_].
-        + apply c_shift_exact in H. destruct H as (F & Hb & ->). split; [assumption|].
-          exists tt. split; [apply binop_shift; lia|reflexivity].
-        + destruct (String.eqb_spec op ">>") as [->|_]; [|discriminate].
-          apply c_shift_exact in H. destruct H as (F & Hb & ->). split; [assumption|].
-          exists tt. split; [apply binop_shift; lia|reflexivity]. }
-    destruct G as (F & _ & B & _). apply andb_true_iff in F. destruct F as [-> ->].
-    simpl. destruct (IHl _ _ eq_refl) as [-> | ->]; simpl; auto.
-    destruct (IHr _ _ eq_refl) as [-> | ->]; simpl; auto.
+      simpl. destruct (IH _ _ EA eq_refl) as [-> | ->]; auto.
+  - destruct (c_eval cenv l) as [[[ta a] fa]|] eqn:El; [|discriminate].
+    destruct (c_eval cenv r) as [[[tb b] fb]|] eqn:Er; [|discriminate].
+    apply binary_exact in H. destruct H as (-> & -> & B).
+    simpl. destruct (IHl _ _ EA eq_refl) as [-> | ->]; simpl; auto.
+    destruct (IHr _ _ EA eq_refl) as [-> | ->]; simpl; auto.
     rewrite B. auto.
+Qed.
+
+(* acceptance: with supported literals the expression is not refused *)
+Theorem agree_accepted : forall cenv env e t v, env_agree cenv env -> supported e ->
+  c_eval cenv e = Some (t, v, true) -> py_eval env e = Ok v.
+Proof.
+  intros cenv env e. induction e as [s|n|op e1 IH|op l IHl r IHr|]; intros t v EA S H; simpl in H; try discriminate.
+  - destruct (c_literal s) as [[t0 v0]|] eqn:L; [|discriminate]. inversion H; subst.
+    simpl. eapply literal_accepted; eauto.
+  - destruct (lookup n cenv) as [[t0 v0]|] eqn:L; [|discriminate]. inversion H; subst.
+    simpl. now rewrite (EA _ _ _ L).
+  - destruct (c_eval cenv e1) as [[[t1 v1] f1]|] eqn:E1; [|discriminate].
+    destruct (String.eqb_spec op "+") as [->|_].
+    + inversion H; subst. simpl. now rewrite (IH _ _ EA S eq_refl).
+    + destruct (String.eqb_spec op "-") as [->|_]; [|discriminate].
+      apply result_exact in H. destruct H as [-> ->].
+      simpl. now rewrite (IH _ _ EA S eq_refl).
+  - destruct S as [Sl Sr].
+    destruct (c_eval cenv l) as [[[ta a] fa]|] eqn:El; [|discriminate].
+    destruct (c_eval cenv r) as [[[tb b] fb]|] eqn:Er; [|discriminate].
+    apply binary_exact in H. destruct H as (-> & -> & B).
+    simpl. rewrite (IHl _ _ EA Sl eq_refl), (IHr _ _ EA Sr eq_refl). simpl. now rewrite B.
 Qed.
